@@ -503,6 +503,28 @@ def structural(data):
     return out
 
 
+def drop_nested_optional(T, v, depth=0):
+    """variants of the stored (wire) value v in which one optional struct member below the top level is left out
+    (an outdated file: the member was added to the struct in a newer version of the driver)"""
+    out = []
+    k = T['k']
+    if k == 'struct' and isinstance(v, dict):
+        if depth > 0:
+            for n in T.get('optional', []):
+                if n in v:
+                    out.append({m: x for m, x in v.items() if m != n})
+        for n, t in T['members'].items():
+            if n in v:
+                out += [dict(v, **{n: x}) for x in drop_nested_optional(t, v[n], depth + 1)]
+    elif k == 'array' and isinstance(v, list):
+        for i, e in enumerate(v):
+            out += [v[:i] + [x] + v[i + 1:] for x in drop_nested_optional(T['of'], e, depth + 1)]
+    elif k == 'tuple' and isinstance(v, list):
+        for i, (t, e) in enumerate(zip(T['of'], v)):
+            out += [v[:i] + [x] + v[i + 1:] for x in drop_nested_optional(t, e, depth + 1)]
+    return out
+
+
 def check_corruption(ctx, case, thorough=False):
     workdir = os.path.join(VERIF, '.work', f'c17c-{os.getpid()}')
     spec = case
@@ -522,6 +544,11 @@ def check_corruption(ctx, case, thorough=False):
         Ts = {p['name']: p['T'] for p in spec['params']}
         cands = [(label, data, None) for label, data in corruptions(raw, thorough)]
         cands += [(label, json.dumps(obj).encode(), obj) for label, obj in structural(good)]
+        for p_ in spec['params']:
+            if p_['name'] in good:
+                for variant in drop_nested_optional(p_['T'], good[p_['name']])[:6]:
+                    obj_ = dict(good, **{p_['name']: variant})
+                    cands.append(('nested-optional-member-missing', json.dumps(obj_).encode(), obj_))
         # the file is there, but can not be read (access rights, I/O error of the medium)
         cands += [('unreadable-EACCES', raw, None), ('unreadable-EIO', raw, None)]
         for label, data, obj in cands:
@@ -576,7 +603,18 @@ def check_corruption(ctx, case, thorough=False):
                     usable = st_ == 'A'
                     if st_ == 'E':
                         continue
-                if usable:
+                if usable and label == 'nested-optional-member-missing' and entry != good.get(p['name']):
+                    # completed from the default where that is possible, or ignored as a whole (then the default applies)
+                    try:
+                        m2.parameters[p['name']].datatype.export_value(getattr(m2, p['name']))
+                        exportable = True
+                    except Exception:   # noqa
+                        exportable = False
+                    if not exportable:
+                        ctx.finding('corrupt:restored-value-not-exportable:nested-optional', sub, f'{p["name"]}: {got!r}')
+                    else:
+                        ctx.ok('nested-optional-tolerated')
+                elif usable:
                     # a stored struct lacking optional members is completed from the default value
                     want = deep_merge(defaults[p['name']], rm.canon(dts[p['name']].validate(dts[p['name']].import_value(entry))))
                     if got != want:
